@@ -222,12 +222,55 @@ fn bgv_factors(cfg: &Cfg, grp: &str, case: u64, rng: &mut Rng, rep: &mut Report)
     for _ in 0..4 { if let Some(op) = m.random_op(rng) { step_c02(&o, rep, &mut m, &op, *rng.pick(&FORMS), &mut trace, false); } }
 }
 
+/// `Evaluator::multiply_many` (a tournament of multiply + relinearize over k operands) against the same tournament written
+/// out step by step through the machine: whenever the written-out result is inside its noise precondition with a margin of
+/// 6 bits, the one-call form must decrypt to the same product
+fn multiply_many(cfg: &Cfg, grp: &str, case: u64, rng: &mut Rng, rep: &mut Report) {
+    let Some(spec) = program_spec(rng, &[4, 8, 16, 32], None) else { return };
+    let Ok(kit) = Kit::new(&spec) else { return };
+    let o = Obs { cfg, grp, case, prop: P };
+    let mut m = Machine::new(&kit, true);
+    if m.rlk.is_none() { rep.out_of_precondition += 1; return; }
+    let k = 1 + (case % 5) as usize;
+    let mut trace = vec![];
+    if !init_pool(&o, rep, &mut m, rng, k, &mut trace) { return; }
+    // the written-out tournament
+    let mut layer: Vec<usize> = (0..k).collect();
+    while layer.len() > 1 {
+        let mut next = vec![];
+        for pair in layer.chunks(2) {
+            if pair.len() == 2 {
+                if !step_c02(&o, rep, &mut m, &Op::Multiply(pair[0], pair[1]), *rng.pick(&FORMS), &mut trace, false) { return; }
+                let prod = m.pool.len() - 1;
+                if !step_c02(&o, rep, &mut m, &Op::Relinearize(prod), *rng.pick(&FORMS), &mut trace, false) { return; }
+                next.push(m.pool.len() - 1);
+            } else { next.push(pair[0]); }
+        }
+        layer = next;
+    }
+    let want = &m.pool[layer[0]];
+    if !m.within(want.e_an * 64.0, want.level) && !want.e_step.map(|e| m.within(e * 64.0, want.level)).unwrap_or(false) { rep.out_of_precondition += 1; rep.count("out_of_precondition_ops", "multiply_many"); return; }
+    let operands: Vec<Ciphertext> = (0..k).map(|i| m.pool[i].ct.clone()).collect();
+    let cls = format!("{}|k={}", spec.scheme_name(), k);
+    trace.push(format!("multiply_many(0..{})", k));
+    let got = lib(|| { let mut d = dirty(&kit); kit.eval.multiply_many(&operands, m.rlk.as_ref().unwrap(), &mut d); d });
+    rep.count("multiply_many_operands", &format!("k={}", k));
+    rep.eval(Some(&format!("{}|multiply_many|k={}|n={}", spec.scheme_name(), k, spec.n)));
+    let ct = match got { Ok(c) => c, Err(p) => { viol(&o, rep, "multiply_many", &cls, "panic", format!("well-typed multiply_many of {} operands panicked: {}", k, p.0), &m, &trace); return; } };
+    if ct.size() != 2 || ct.parms_id() != want.ct.parms_id() || ct.is_ntt_form() != want.ct.is_ntt_form() { viol(&o, rep, "multiply_many", &cls, "metadata", format!("size {} ntt {}", ct.size(), ct.is_ntt_form()), &m, &trace); return; }
+    match m.lib_decrypt(&ct) {
+        Err(p) => viol(&o, rep, "multiply_many", &format!("{}|decrypt", cls), "panic", p.0, &m, &trace),
+        Ok(g) => if g != want.m { viol(&o, rep, "multiply_many", &cls, "value", format!("multiply_many of {} operands decrypts to {:?}, the product is {:?}", k, &g[..g.len().min(8)], &want.m[..want.m.len().min(8)]), &m, &trace); }
+    }
+}
+
 pub fn run(cfg: &Cfg, rep: &mut Report) -> PropMeta {
     let deep = cfg.pick(12usize, 30usize);
     run_cases(cfg, "programs", cfg.n(18000, 300000) as u64, rep, |i, rng, rep| programs(cfg, "programs", i, rng, rep, &[2, 4, 8, 16, 32], deep));
     run_cases(cfg, "programs_mid", cfg.n(120, 2000) as u64, rep, |i, rng, rep| programs(cfg, "programs_mid", i, rng, rep, &[64, 128, 256], deep));
     run_cases(cfg, "programs_big", cfg.n(12, 120) as u64, rep, |i, rng, rep| programs(cfg, "programs_big", i, rng, rep, &[1024, 4096], 6));
     run_cases(cfg, "sizepairs", cfg.n(16, 160) as u64, rep, |i, rng, rep| sizepairs(cfg, "sizepairs", i, rng, rep));
+    run_cases(cfg, "multiply_many", cfg.n(600, 10000) as u64, rep, |i, rng, rep| multiply_many(cfg, "multiply_many", i, rng, rep));
     run_cases(cfg, "bgv_factors", cfg.n(2000, 30000) as u64, rep, |i, rng, rep| bgv_factors(cfg, "bgv_factors", i, rng, rep));
     PropMeta {
         id: "C02", level: "exploration",
